@@ -11,6 +11,7 @@ from ..tools import ITER_TOOLS, AGG_TOOLS, TOOLS
 from ..gen import base_case
 from ..core import build, expect_return, run_sync, consumer_view
 from ..driver import Ctx, run, loop_mode, close_orphans, Cancel
+from ..values import GrumpyError
 from .. import env
 from . import c18
 
@@ -116,7 +117,7 @@ def check_sync(case):
     if b.ctx.suspensions or b.ctx.foreign:
         raise Violation(f"C17/{tool}/suspended-with-only-synchronous-arguments",
                         f"suspensions={b.ctx.suspensions} foreign={[repr(x)[:60] for x in b.ctx.foreign[:2]]}")
-    if outcome[0] == "raise" and not isinstance(outcome[1], (TypeError, ValueError)):
+    if outcome[0] == "raise" and not isinstance(outcome[1], (TypeError, ValueError, GrumpyError)):
         expect_return(outcome, f"C17/{tool}")
 
 
@@ -335,7 +336,7 @@ def check_battery(case):
     out = json.loads(proc.stdout.strip().splitlines()[-1])
     if out["at_import"] or out["accessed"]:
         raise Violation("C17/subprocess/asyncio-loop-access-at-import-or-use", f"{out['at_import']} {out['accessed'][:3]}")
-    bad = [f for f in out["failed"] if "TypeError" not in f[1] and "ValueError" not in f[1]]
+    bad = [f for f in out["failed"] if not any(n in f[1] for n in ("TypeError", "ValueError", "GrumpyError"))]
     if bad:
         raise Violation("C17/subprocess/operation-failed-without-asyncio-loop", f"{bad[:2]}")
     return {"evaluations": out["done"], "nontrivial": [f"op{i}" for i in range(out["done"])],
